@@ -2,6 +2,7 @@
   Line-protocol driver (DESIGN Appendix B): one operation per line on stdin, one
   observation per line on stdout.  Core-only, compiled as `lean_exe drv`.
 -/
+import Driver.GenOps
 import Wsp.Model.World
 import Wsp.Model.Text
 import Wsp.Model.Cmd
@@ -348,6 +349,9 @@ def step (st : St) (line : String) : St × String :=
         match Spec.stepSpec o toks with
         | some s => (st, s)
         | none =>
+          match GenDrv.stepGen toks with
+          | some s => (st, s)
+          | none =>
           let st := st.flush
           match CmdDrv.stepCmd o st.tree (if toks.head? == some "snapshot" then "snapshot" :: toks.tail else toks) with
           | some (tree, s) => (({ st with tree := tree } : St).reload, s)
